@@ -1509,15 +1509,56 @@ def uni_channel_world(ctx, chan, N, MS, k, registered, nstreams=1):
     return w, Ptr("ch"), pre, cfile, ring, ring_base
 
 
+MLOG_FILE = "src/multi/channels/reference/mmap_log.rs"
+
+
+def log_channel_world(ctx, CAP, MS, nlisteners, k, registered):
+    """the mmap-log Multi channel (MmapLog) over a log topic of CAP slots that already holds k events none of the `nlisteners`
+    (new-events, Dynamic) listeners has consumed yet; the set of listeners is constant"""
+    w, mm, cfid = log_world(ctx, CAP, {"MAX_STREAMS": MS}, {"DerivedItemType": "&u32", "ChannelConsumerType": "@" + MLOG_FILE})
+    w.pre = [w.sym("pre%d" % i) for i in range(k)]
+    w.mem[("mc", (cfid["publisher_tail"],))]["init"] = BV(64, k)
+    w.mem[("mc", (cfid["consumer_tail"],))]["init"] = BV(64, k)
+    cells = w.mem[("mc", (cfid["first_buffer_element"],))]["init"]
+    for i in range(k): cells[i] = w.pre[i]
+    cf = {nm: i for i, nm in enumerate(layout.struct_fields(MLOG_FILE, "MmapLog"))}
+    w.decl("ch", (cf["log_queue"],), "frozen", None, value=mm)
+    sf = {nm: i for i, nm in enumerate(w.fields("StreamsManagerBase"))}
+    sm = (cf["streams_manager"],)
+    w.decl("ch", sm + (sf["wakers"], "*"), "array", z3.BitVecSort(8), [BV(8, (j + 1) if (registered and j < nlisteners) else 0) for j in range(MS)], n=MS)
+    w.mem[("ch", sm + (sf["wakers"], "*"))]["codec"] = "opt_waker"
+    w.decl("ch", sm + (sf["wakers_lock"],), "atomic", z3.BoolSort(), z3.BoolVal(False))
+    w.decl("ch", sm + (sf["keep_streams_running"], "*"), "array", z3.BoolSort(), [z3.BoolVal(j < nlisteners) for j in range(MS)], n=MS)
+    w.decl("ch", sm + (sf["used_streams"], "*"), "frozen", None, value=[BV(32, j if j < nlisteners else 0xFFFFFFFF) for j in range(MS)])
+    w.decl("ch", sm + (sf["used_streams_count"],), "frozen", None, value=BV(32, nlisteners))
+    subf = {nm: i for i, nm in enumerate(layout.struct_fields(MM_FILE, "MMapMetaDynamicSubscriber"))}
+    for j in range(nlisteners):
+        base = (cf["subscribers"], j)
+        w.decl("ch", base, "frozen", None, value=Enum("MMapMetaSubscriber", BV(64, 0), {}))
+        pl = base + ("v:Dynamic", 0)
+        w.decl("ch", pl + (subf["head"],), "atomic", z3.BitVecSort(64), BV(64, 0))
+        w.decl("ch", pl + (subf["buffer"],), "frozen", None, value=Ptr("mc", (cfid["first_buffer_element"],)))
+        w.decl("ch", pl + (subf["meta_mmap_log_topic"],), "frozen", None, value=mm)
+    mf = {nm: i for i, nm in enumerate(layout.struct_fields("src/mutiny_stream.rs", "MutinyStream"))}
+    for i in range(nlisteners):
+        w.decl("st%d" % i, (mf["stream_id"],), "frozen", None, value=BV(32, i))
+        w.decl("st%d" % i, (mf["events_source"],), "frozen", None, value=Ptr("ch"))
+    w.log_keys = {"tail": ("mc", (cfid["consumer_tail"],)), "head0": ("ch", (cf["subscribers"], 0, "v:Dynamic", 0, subf["head"]))}
+    return w, Ptr("ch"), cf
+
+
 def stream_world(ctx, chan, N, MS, k, registered, nstreams=1):
     """Uni channel (one shared ring) or Multi arc channel (one ring per listener; the ring watched for 'pending' is listener 0's)"""
     if chan in UNI_FILES: return uni_channel_world(ctx, chan, N, MS, k, registered, nstreams=nstreams)
+    if chan == "multi_mmap_log":
+        w, ch, cf = log_channel_world(ctx, N, MS, nstreams, k, registered)
+        return w, ch, w.pre, MLOG_FILE, "MmapLog", None
     w, ch, cfile, ring = multi_channel_world(ctx, chan, N, MS, nstreams, k=k, registered=registered)
     cf = {nm: i for i, nm in enumerate(layout.struct_fields(cfile, MULTI_FILES[chan][1]))}
     return w, ch, w.pre, cfile, ring, (cf["channels"], 0)
 
 
-REPLAY_STREAM_KIND = {"uni_move_full_sync": "StreamUniFullSync", "uni_move_atomic": "StreamUniAtomic", "multi_arc_atomic": "StreamMultiArcAtomic", "multi_arc_full_sync": "StreamMultiArcFullSync"}
+REPLAY_STREAM_KIND = {"multi_mmap_log": "StreamMultiMmapLog", "uni_move_full_sync": "StreamUniFullSync", "uni_move_atomic": "StreamUniAtomic", "multi_arc_atomic": "StreamMultiArcAtomic", "multi_arc_full_sync": "StreamMultiArcFullSync"}
 
 
 def wake_query(ctx, name, chan, N, MS, k, producers, registered, timeout_s, slack=2):
@@ -1545,9 +1586,12 @@ def wake_query(ctx, name, chan, N, MS, k, producers, registered, timeout_s, slac
     # a task that has parked before starts parked (not woken) unless events are already pending (then it was woken for them)
     b = BMC(graphs, w.mem, S, {"tasks": 1, "woken_init": {0: bool(registered and k > 0)}})
     S = b.S
-    fi = {nm: i for i, nm in enumerate(w.fields(ring))}
-    head = b.memv[S][("ch", ring_base + (fi["head"],))]; tail = b.memv[S][("ch", ring_base + (fi["tail"],))]
-    pending = tail - head
+    if ring == "MmapLog":
+        pending = b.memv[S][w.log_keys["tail"]] - b.memv[S][w.log_keys["head0"]]
+    else:
+        fi = {nm: i for i, nm in enumerate(w.fields(ring))}
+        head = b.memv[S][("ch", ring_base + (fi["head"],))]; tail = b.memv[S][("ch", ring_base + (fi["tail"],))]
+        pending = tail - head
     producers_done = z3.And([b.is_kind(t, S, "done") for t in range(T)])
     lost = z3.And(producers_done, b.parked(T, S), pending != 0)
     meta = {"threads": ["%d:%s" % (i, "+".join(p)) for i, p in enumerate(producers)] + ["%d:executor task: poll_next / park when Pending / re-poll when woken" % T],
@@ -1574,7 +1618,7 @@ def wake_query(ctx, name, chan, N, MS, k, producers, registered, timeout_s, slac
                 return "lost wake-up: producers returned, the stream's task (%s) is parked and was not woken, %s accepted event(s) pending" % (fin[-1]["res"][2], fin[-1]["res"][1])
             return None
         kind = REPLAY_STREAM_KIND[chan] + ("Parked" if registered else "Fresh") + ":%d:1" % MS
-        found, why, tried = replay.search(kind, N, [inp["origin"]], prefill_vals, progs, [], segs, symptom, max_runs=250)
+        found, why, tried = replay.search(kind, N, [inp.get("origin", 0)], prefill_vals, progs, [], segs, symptom, max_runs=250)
         rec["native_runs"] = tried
         if found: rec.update(verdict="violation", symptom=found["symptom"], replayed=True, native_history=found["history"].get("events", []), native_segments=found["segments"])
         else: rec.update(verdict="inconclusive", why="model counterexample (%s) did not reproduce natively: %s" % (rec["model_final"], why))
@@ -1598,6 +1642,9 @@ def _c04_registry(add, tier, TO):
     q("c04_multi_arc_full_sync_parked_vs_send", "quick", "multi_arc_full_sync", 2, 1, 0, [["send"]], True)
     q("c04_multi_arc_atomic_parked_k2_vs_send_n4", "quick", "multi_arc_atomic", 4, 1, 2, [["send"]], True)
     q("c04_multi_arc_full_sync_parked_k2_vs_send_n4", "thorough", "multi_arc_full_sync", 4, 1, 2, [["send"]], True)
+    q("c04_mmap_log_parked_vs_send", "quick", "multi_mmap_log", 4, 1, 0, [["send"]], True)
+    q("c04_mmap_log_parked_vs_two_producers", "quick", "multi_mmap_log", 4, 1, 0, [["send"], ["send"]], True)
+    q("c04_mmap_log_first_park_vs_send", "thorough", "multi_mmap_log", 4, 1, 0, [["send"]], False)
     q("c04_full_sync_parked_vs_two_producers", "thorough", "uni_move_full_sync", 2, 1, 0, [["send"], ["send"]], True)
     q("c04_atomic_parked_vs_three_sends_n4", "thorough", "uni_move_atomic", 4, 1, 0, [["send", "send", "send"]], True)
 
@@ -1623,7 +1670,7 @@ def cancel_query(ctx, name, chan, N, MS, nstreams, k, cancel, producers, registe
     it = w.interp()
     f_send = ctx.index.method("send", cfile)
     graphs = []; vals = []
-    cf = {nm: i for i, nm in enumerate(layout.struct_fields(cfile, (UNI_FILES.get(chan) or MULTI_FILES[chan])[1]))}
+    cf = {nm: i for i, nm in enumerate(layout.struct_fields(cfile, "MmapLog" if chan == "multi_mmap_log" else (UNI_FILES.get(chan) or MULTI_FILES[chan])[1]))}
     if cancel[0] == "all":
         graphs.append(build_thread(it, 0, [(ctx.index.method("cancel_all_streams", cfile), [ch], "cancel_all")], w.mem)); targeted = list(range(nstreams))
     else:
@@ -1674,7 +1721,7 @@ def cancel_query(ctx, name, chan, N, MS, nstreams, k, cancel, producers, registe
                 if hung_: return "cancelled stream(s) %s never answer end-of-stream: the cancel request returned, the task is parked and was not woken" % ",".join(hung_)
             return None
         kind = REPLAY_STREAM_KIND[chan] + ("Parked" if registered else "Fresh") + ":%d:%d" % (MS, nstreams)
-        found, why, tried = replay.search(kind, N, [inp["origin"]], prefill_vals, progs, [], segs, symptom, max_runs=250)
+        found, why, tried = replay.search(kind, N, [inp.get("origin", 0)], prefill_vals, progs, [], segs, symptom, max_runs=250)
         rec["native_runs"] = tried
         if found: rec.update(verdict="violation", symptom=found["symptom"], replayed=True, native_history=found["history"].get("events", []), native_segments=found["segments"])
         else: rec.update(verdict="inconclusive", why="model counterexample (%s) did not reproduce natively: %s" % (rec["model_final"], why))
@@ -1692,6 +1739,7 @@ def _c07_registry(add, tier, TO):
     q("c07_atomic_cancel_all_vs_send", "quick", "uni_move_atomic", 2, 1, 1, 0, ("all",), [["send"]], False)
     q("c07_multi_arc_atomic_cancel_all_vs_first_poll", "quick", "multi_arc_atomic", 2, 1, 1, 0, ("all",), [], False)
     q("c07_multi_arc_atomic_cancel_all_vs_parked_k1", "quick", "multi_arc_atomic", 2, 1, 1, 1, ("all",), [], True)
+    q("c07_mmap_log_cancel_all_vs_first_poll", "quick", "multi_mmap_log", 4, 1, 1, 0, ("all",), [], False)
     q("c07_atomic_cancel_all_two_streams", "thorough", "uni_move_atomic", 2, 2, 2, 1, ("all",), [], False)
     q("c07_full_sync_cancel_all_vs_send_parked", "thorough", "uni_move_full_sync", 2, 1, 1, 0, ("all",), [["send"]], True)
     q("c07_full_sync_cancel_one_of_two_parked", "thorough", "uni_move_full_sync", 2, 2, 2, 0, ("one", 0), [], True)
@@ -1959,9 +2007,10 @@ def _log_helpers():
 PRELUDE += _log_helpers()
 
 
-def log_world(ctx, CAP):
-    consts = {}
+def log_world(ctx, CAP, consts=None, types_extra=None):
+    consts = dict(consts or {})
     types = {"SlotType": "u32", "ItemType": "u32", "GetterReturnType": "&u32"}
+    types.update(types_extra or {})
     w = World(ctx.index, ctx.type_files, consts, types)
     mf = {nm: i for i, nm in enumerate(layout.struct_fields(MM_FILE, "MMapMeta"))}
     cfid = {nm: i for i, nm in enumerate(layout.struct_fields(MM_FILE, "MMapContents"))}
